@@ -41,6 +41,20 @@ pub fn c_decoder_ctor_is_null(alist: &[u8], implementation: &[u8], puncturing: &
     h.is_null()
 }
 
+/// one decode through a freshly constructed C handle (string constructor, no puncturing): (return value, output bytes)
+pub fn c_decode_once(alist: &[u8], implementation: &[u8], llrs: &[f64], limit: u32, out_len: usize) -> Option<(i32, Vec<u8>)> {
+    let (ca, ci, cp) = (cs(alist), cs(implementation), cs(b""));
+    let h = unsafe { ldpc_toolbox_decoder_ctor_alist_string(ca.as_ptr(), ci.as_ptr(), cp.as_ptr()) };
+    if h.is_null() {
+        return None;
+    }
+    let mut out = vec![0xAAu8; out_len].into_boxed_slice();
+    let l64: Box<[f64]> = llrs.to_vec().into_boxed_slice();
+    let ret = unsafe { ldpc_toolbox_decoder_decode_f64(h, out.as_mut_ptr(), out_len, l64.as_ptr(), l64.len(), limit) };
+    unsafe { ldpc_toolbox_decoder_dtor(h) };
+    Some((ret, out.to_vec()))
+}
+
 fn cs(bytes: &[u8]) -> CString {
     // interior NULs cannot be passed through a C string: cut there (what C would see)
     let cut = bytes.iter().position(|&b| b == 0).unwrap_or(bytes.len());
